@@ -11,7 +11,7 @@ import (
 
 // ---- documents: concrete skeletons with symbolic digit leaves ----
 
-const numMDocs = 4
+const numMDocs = 5
 
 // digit returns a symbolic decimal digit byte.
 func digit(tag string) byte {
@@ -30,8 +30,10 @@ func mDoc(k int) []byte {
 		skel = `[[L,L],[L,L],[L,L]]`
 	case 2:
 		skel = `{"a":{"b":{"x":L},"x":L},"x":L}`
-	default:
+	case 3:
 		skel = `[L,{"k":[L,{"k":L}],"j":L},[[L]],L]`
+	default:
+		skel = `{"a":[{"x":L},{"x":L},L],"x":L}`
 	}
 	out := make([]byte, len(skel))
 	for i := 0; i < len(skel); i++ {
@@ -190,12 +192,17 @@ func VerifC17_Match() {
 	nt := 1 + vx.Choose("ntargets", vx.Param("NT", 1))
 	var targets []jp.Expr
 	var frags [][]vref.PFrag
+	var filters []int
 	desc := ""
 	for i := 0; i < nt; i++ {
-		t, rf, d := mTarget(vx.Choose("target", numMTargets))
+		tk := vx.Choose("target", numMTargets)
+		t, rf, d := mTarget(tk)
 		targets = append(targets, t)
 		frags = append(frags, rf)
 		desc += d + " "
+		if tk == 11 {
+			filters = append(filters, i)
+		}
 	}
 	load := vx.Choose("load", 2+vx.Param("SPLIT", 0)) // 0: Match on []byte, 1: MatchLoad 1-byte reads, 2: MatchLoad split in two
 	doc := mDoc(dk)
@@ -207,6 +214,11 @@ func VerifC17_Match() {
 		vx.Assume(false)
 	}
 	want := expectedHits(tree, frags)
+	fhits := 0 // locations selected by filter targets (labels findings only)
+	for _, i := range filters {
+		fhits += len(vref.Select(frags[i], tree).Nodes)
+	}
+	vx.Key("fhits", fhits)
 	var got []mHit
 	var err error
 	cb := func(path jp.Expr, data any) { got = append(got, mHit{path.String(), data}) }
